@@ -114,7 +114,8 @@ def run_parser_tie(res, timeout=240):
                 ln = int(m.group(1))
                 lemma = translate_tie._enclosing(lines, ln) or "?"
                 err = " ".join(m.group(2).split())[:240]
-                fn = re.sub(r"^TP_|_eq$", "", lemma)
+                dm0 = re.search(r"([A-Za-z]+Def)_", lemma)  # TP_<Def>_parseFrom_eq and the auxiliary <Def>_loop_eq / _core lemmas
+                fn = dm0.group(1) + "_parseFrom" if dm0 else re.sub(r"^TP_|_eq$", "", lemma)
                 where = translated.get(fn, "")
                 tsrc = open(os.path.join(scratch, "ParserTranslated.v"), encoding="utf-8").read()
                 dm = re.search(r"Definition %s .*?\.\n\n" % re.escape(fn), tsrc, re.S)
